@@ -170,6 +170,46 @@ SEEDS = {
         "EZSP v4: five failures in total with successes in between"),
     "C20d-gather-without-return-exceptions": ("C20", "EventLoopThread.force_stop gathers the tasks without return_exceptions",
         "two or more coroutine calls outstanding at the stop, one ending abnormally at once, another needing several loop iterations to unwind: its caller blocks for ever"),
+    "C01e-failed-state-zeroes-counters": ("C01", "_enter_failed_state also zeroes _tx_seq / _rx_seq ('the session is over')",
+        "a failed send (budget spent) while the NCP still retransmits an in-flight frame numbered 0: it is accepted a second time before the RSTACK"),
+    "C02e-xon-xoff-left-in-buffer": ("C02", "XON/XOFF are removed only from the bytes before the flag; a read slice that consists of flow-control bytes only is treated as a frame",
+        "XON / XOFF bytes directly in front of a flag with nothing else in the frame (11 7e): a spurious NAK"),
+    "C03e-length-guard-on-stuffed-bytes": ("C03", "data_received applies the maximum-frame-length guard to the stuffed bytes instead of the unstuffed ones",
+        "a valid DATA frame whose stuffed length exceeds the limit while its unstuffed length does not (payload rich in reserved bytes after randomisation)"),
+    "C04e-handle-ack-settled-future": ("C04", "_handle_ack sets the result without the done() guard: InvalidStateError escapes frame_received",
+        "an ACK and a DATA frame (or two frames carrying ackNum) in one read while a send of the host awaits its acknowledgement: the second frame gets no ACK/NAK"),
+    "C05e-nak-path-unclamped": ("C05", "the NAK path adjusts the acknowledgement timeout without clamping it to the minimum / maximum",
+        "several NAKs in a row (each doubles the value) followed by a silent attempt: the timeout exceeds the protocol's maximum"),
+    "C06e-counter-reads-lose-priority": ("C06", "a missing comma in the priority table merges readCounters into the next key: counter reads get ordinary priority",
+        "a readCounters / readAndClearCounters call queued behind ordinary commands"),
+    "C07e-v8-header-divmod-255": ("C07", "the v8 header writes the frame id with divmod(cmd_id, 0xFF)",
+        "protocol version 8+, a command whose frame id is 0x00FF or above"),
+    "C08e-schema-equality-instead-of-id": ("C08", "__call__ asserts that the pending call's response SCHEMA equals the frame's schema instead of comparing frame ids",
+        "a frame of a different command whose response schema is equal (e.g. two commands answering with a single status) under the pending call's sequence number"),
+    "C09e-counters-zeroed-at-rst": ("C09", "the frame counters are zeroed when the RST is written instead of when the RSTACK arrives",
+        "a DATA frame of the old session numbered 0 arriving between the host's RST and the RSTACK: the version response is then rejected as out of sequence and bring-up times out"),
+    "C10e-dead-link-enters-failed-state": ("C10", "_send_data_frame treats a closed transport as a link failure and enters the failed state",
+        "a deliberate close with a command queued behind the one in flight: the application gets a controller-reset request"),
+    "C11e-one-waiter-released": ("C11", "connection_lost picks `self._reset_future or self._startup_reset_future`: only one of two pending waiters is released",
+        "a reset request and a start-up wait pending at the same time when the connection is lost"),
+    "C12e-setup-only-first-attempt": ("C12", "the route / extended-timeout set-up commands are issued on the first attempt only",
+        "a unicast with set-up whose send command is answered busy and retried: the retry goes out without its set-up, and another request's set-up may sit between"),
+    "C13e-rssi-invalid-to-none": ("C13", "an RSSI of -128 ('no measurement') is replaced by None",
+        "an incoming message callback with rssi = -128"),
+    "C14e-hashed-flag-from-data": ("C14", "the hashed-TCLK flag is derived from the presence of the hashed key in the backup instead of the protocol version",
+        "EZSP v4 with a backup that carries stack-specific hashed-key data: flag and key in the security state are wrong"),
+    "C15e-claim-recorded-before-write": ("C15", "subscribe records the group before the table write and removes it only on rejection",
+        "a table write that ends in a command timeout: the group stays reported as subscribed and the index is gone"),
+    "C16e-unreadable-setting-skipped": ("C16", "a setting whose current value cannot be read is skipped instead of written",
+        "the NCP answers getConfigurationValue with an error status for a setting that is to be written"),
+    "C17e-callback-ids-by-length": ("C17", "add_callback numbers callbacks by len(self._callbacks)",
+        "a registration removed while a later one is live, then a new registration: two callbacks share an id and removing one removes the other"),
+    "C18e-v6-init-status-cast": ("C18", "the v6 initialize_network wrapper casts the stack status with sl_Status(...) instead of converting it",
+        "protocol versions 5..7 (the v6 wrapper) and a networkInit status other than success, e.g. NOT_JOINED 0x93"),
+    "C19e-rollover-clears-failures": ("C19", "the periodic counter roll-over goes through a helper that also zeroes the failure count",
+        "a run of consecutive failures that straddles the read-and-clear feed (which itself fails), protocol version above 4"),
+    "C20e-truthiness-test-on-return": ("C20", "the plain-method wrapper tests `if call():` instead of `is not None`",
+        "a plain method that returns a falsy non-None value (0, '', [], False): the misuse is not reported"),
 }
 
 # checks run against each change besides the one of the property it breaks
@@ -182,6 +222,9 @@ ALSO = {
     "C01d-any-other-acknum-acknowledges": ["C05"], "C02d-ack-number-of-stale-retransmission": ["C04"], "C03d-unstuff-sequential-replace": ["C02"],
     "C04d-control-frames-unstuffed": ["C03"], "C08d-log-future-exception": ["C06"], "C11d-failure-ignored-while-resetting": ["C10"],
     "C18d-network-busy-to-busy": ["C12"],
+    "C01e-failed-state-zeroes-counters": ["C04", "C05"], "C03e-length-guard-on-stuffed-bytes": ["C02"],
+    "C04e-handle-ack-settled-future": ["C05"], "C08e-schema-equality-instead-of-id": ["C06"], "C09e-counters-zeroed-at-rst": ["C11"],
+    "C18e-v6-init-status-cast": ["C17"],
 }
 
 
